@@ -228,8 +228,15 @@ def decide(pid, prop, tier, seed, results, extra, t0, args):
         if nat["failures"]:
             already = any(v["contract"] == cname for v in violations)
             if not already:
-                f = nat["failures"][0]
-                violations.append({"contract": cname, "case": "native", "obligation": f"{cname}/native:{f['detail'].split(':')[0][:60]}", "verdict": "native-fail", "how": "bounded native check", "witness": jsonable(f["case"]), "replay_detail": f["detail"], "closed_path": True})
+                # one violation per distinct failure text (a recorded known finding among them must not hide the others)
+                seen_labels = set()
+                for f in nat["failures"]:
+                    label = f"{cname}/native:{f['detail'].split(':')[0][:60]}"
+                    key = (label, json.dumps(jsonable(f["case"]), sort_keys=True, default=str)) if match_known(cname, label, f["case"]) else (label, None)
+                    if key in seen_labels:
+                        continue
+                    seen_labels.add(key)
+                    violations.append({"contract": cname, "case": "native", "obligation": label, "verdict": "native-fail", "how": "bounded native check", "witness": jsonable(f["case"]), "replay_detail": f["detail"], "closed_path": True})
     for cname, case, why in unsupported:
         print(f"UNSUPPORTED property={pid} contract={cname} case={case}: {why[:300]} -> {'bounded stand-in' if cname in native_by_contract else 'undecided'}", file=sys.stderr)
         if cname not in native_by_contract:
